@@ -241,6 +241,12 @@ func runC17(t *zsim.Tape, cfg *hlib.Config) *hlib.Outcome {
 	if sc.Profile == "stream" {
 		d.ReadMode = 1
 		d.Enabled[zsim.FReadShort] = true
+		if t.Draw(5) == 4 {
+			// a writer that trickles: EVERY read delivers 1-12 bytes, so a source of a few hundred
+			// kilobytes takes tens of thousands of reads
+			d.ReadMode = 2
+			sc.Class += "+trickle"
+		}
 		if t.Draw(4) == 3 {
 			d.Enabled[zsim.FReadEIO] = true
 			d.Rate = 4
